@@ -137,7 +137,7 @@ def fam_nested_comp(d):
     body = d.pick([
         "m = [[i * j for j in range(3)] for i in range(2)]\nflat = []\nfor row in m:\n    for v in row:\n        flat.append(v)\nprint(flat)\n",
         "print([y for y in [x * 2 for x in {it}] if y > 2])\n",
-        "print(list(x + 1 for x in {it}))\nprint(set([x for x in {it}]))\nprint(list([x for x in {it}]))\n",
+        "print(list(x + 1 for x in {it}))\nprint(set([x for x in {it}]))\nprint(list([x for x in {it}]))\nprint(list(iter([x for x in {it}])))\n",
         "print(sorted(set(x % 3 for x in {it})))\nprint(tuple([x for x in {it}]))\n",
         "print([x for x in (y + 1 for y in {it})])\nprint(sum([x for x in {it}]))\n",
         "gen = (x for x in {it})\nprint(list(gen))\nprint([x for x in {it}])\nprint({{x for x in {it}}} == set({it}))\n",
